@@ -137,6 +137,10 @@ def _converted_by(tree, vfg_, meth, inner_obs: T, obs: T) -> bool:
             args = [uncopy(strip_cast(v)) for v in vars_.values()]
             if inner_obs in args and (uncopy(result) is uncopy(obs) or contains(obs, uncopy(result))):
                 return True
+    # a host conversion is present but the value flow between the jitted step and the converter is not resolved
+    # (e.g. outputs forwarded through a star-slice): not decided
+    if any(ext_name(d) in ("numpy.asarray", "numpy.array", "jax.device_get") for d in deps(obs)):
+        return None
     return False
 
 
@@ -277,6 +281,8 @@ def check(tier: str) -> Result:
         obs, info = r.args[0]
         tsr = mk("proj", rc, 1)
         ok = contains(obs, mk("attr", tsr, "observation")) and not any(contains(obs, mk("attr", tsr, x)) for x in ("reward", "discount", "extras", "step_type"))
+        if not ok and not contains(obs, tsr) and any(ext_name(d) in ("numpy.asarray", "numpy.array", "jax.device_get") for d in deps(obs)):
+            ok = None
         res.add("C15.R3", f.loc(), "wrappers.JumanjiToGymWrapper.reset", "returned observation is converted from the inner reset observation only", ok, txt(obs, 3, 120))
         conv = _converted_by(tree, vreset0, f, mk("attr", tsr, "observation"), obs)
         res.add("C15.R3", f.loc(), "wrappers.JumanjiToGymWrapper.reset", "returned observation went through the gym observation converter (host arrays / nested dicts)", conv,
@@ -296,6 +302,8 @@ def check(tier: str) -> Result:
         ss = st.get(S, []) if S is not None else []
         res.add("C15.R2", f.loc(), "wrappers.JumanjiToGymWrapper.step", "the state attribute <- state returned by the inner step", ss == [mk("proj", sc, 0)], f"attribute {S}: {[txt(s_, 4, 80) for s_ in ss]}")
         ok = contains(obs, mk("attr", ts, "observation")) and not any(contains(obs, mk("attr", ts, x)) for x in ("reward", "discount", "extras", "step_type"))
+        if not ok and not contains(obs, ts) and any(ext_name(d) in ("numpy.asarray", "numpy.array", "jax.device_get") for d in deps(obs)):
+            ok = None
         res.add("C15.R3", f.loc(), "wrappers.JumanjiToGymWrapper.step", "observation is converted from the inner observation only", ok, txt(obs, 3, 120))
         conv = _converted_by(tree, vstep, f, mk("attr", ts, "observation"), obs)
         res.add("C15.R3", f.loc(), "wrappers.JumanjiToGymWrapper.step", "observation went through the gym observation converter (host arrays / nested dicts)", conv,
@@ -313,6 +321,13 @@ def check(tier: str) -> Result:
         res.add("C15.R3", f.loc(), "wrappers.JumanjiToGymWrapper.step", "info is the inner extras", ok, txt(info, 4, 120))
     else:
         res.add("C15.R3", f.loc(), "wrappers.JumanjiToGymWrapper.step", "returns (obs, reward, terminated, truncated, info) from one inner step", False, txt(r, 4, 200))
+    # value flow between the jitted step and the returned tuple not resolved (outputs forwarded through a star-slice of a
+    # list / tuple the evaluator could not index): the field-to-field obligations of gym step are not decided then
+    if any(ext_name(d) in ("builtins.list", "builtins.tuple") and d.args[1] and d.args[1][0].kind in ("tuple", "list") for d in deps(r)):
+        for o_ in res.obligations:
+            if o_.rule == "C15.R3" and o_.func == "wrappers.JumanjiToGymWrapper.step" and o_.ok is False:
+                o_.ok = None
+                o_.detail = "not decided (outputs of the inner step are forwarded through an unresolved star-slice): " + o_.detail
     # ---- jumanji_to_gym_obs: array leaves are converted without changing their dtype
     cf = tree.functions.get(W + "jumanji_to_gym_obs")
     if cf is None:
